@@ -185,7 +185,7 @@ def parseNode (s : String) : Option Rd2.Node :=
   | [l, kind, _status, to, loc, thn] =>
     let kind? := if kind == "final" then some Rd2.Kind.final else if kind == "redirect" then some .redirect
       else if kind == "needauth" then some .needauth else none
-    let loc? := if loc == "abs" then some Rd2.Loc.abs else if loc == "rel" then some .rel else if loc == "bad" then some .bad else none
+    let loc? := if loc == "abs" || loc == "net" then some Rd2.Loc.abs else if loc == "rel" then some .rel else if loc == "bad" then some .bad else none
     match l.toNat?, kind?, to.toNat?, loc? with
     | some l, some k, some t, some lc => some { l := l, kind := k, to := t, loc := lc, thenRedirect := thn == "redirect" }
     | _, _, _, _ => none
